@@ -10,7 +10,11 @@ assignment / setObs / addAnalyticalFeature / unary, binary, scalar void operator
 arithmetic raises mid-way included) / value-returning aggregates / `computeAbsCurv`, `estimate_speed`,
 `segmentation` / `operate(str)` on an arbitrary RPN token list over `= + - * / ^ % < > & $ @`. All statements
 are for every scalar type `V`, every feature name (any string) and every interpretation `o : Ops V` of the
-arithmetic, exceptions included (the driver runs them at `Float`). -/
+arithmetic, exceptions included (the driver runs them at `Float`).
+
+Continued in `Props/C01World.lean` (the same API on a heap of `Obs` objects: tracks that share or copy their
+observations — `extract`, slices, `+`, `copy`, `extractSpanTime`, `loop(add=True)`, `addObs(o.copy())`) and in
+`Props/C01Call.lean` (the list forms of `Track.operate`). -/
 set_option linter.unusedSectionVars false
 namespace TV.C01
 open TV.Features
